@@ -215,7 +215,12 @@ PROPS = {
                            'no_stale_read_reachable', 'has_returns_view_always', 'iter_returns_view_metered',
                            'iter_lists_only_views', 'iter_misses_only_refused', 'iter_complete_when_gas_suffices',
                            'reads_change_only_gas', 'view_set_always', 'accepted_set_is_read_back_always',
-                           'view_del_always', 'discarded_session_noop_always'],
+                           'view_del_always', 'discarded_session_noop_always',
+                           'iterAll_lists_exactly_visible_keys', 'iterAll_lists_exactly_visible_keys_when_gas_suffices',
+                           'iterAll_exactly_when_gas_suffices', 'iterAll_lists_only_visible', 'iterAll_lists_visible_unless_refused',
+                           'iterAll_sees_pending_writes', 'iterAll_sees_pending_writes_session', 'iterAll_skips_pending_deletes',
+                           'iterAll_skips_deleted', 'iterAll_eq_iter_when_nothing_pending', 'iter_sublist_of_iterAll',
+                           'iter_misses_pending_only_keys', 'tree_keys_nodup_reachable'],
         run=run_c09,
         replay=replay_olh('kv'),
         level='proof',
@@ -229,21 +234,21 @@ PROPS = {
     ),
     'C20': dict(
         lean_modules=['OLP.Props.C20'], namespaces=['OLP.Props.C20'],
-        required_theorems=['executed_tx_is_validated', 'changes_need_valid_signature', 'at_most_one_owner', 'create_needs_absent_name', 'subs_follow_parent_partial', 'sub_expires_with_parent_partial',
-                           'subs_follow_parent_one_tx_per_block', 'pending_sub_survives_purchase', 'sub_owner_follows_parent_fails',
-                           'pending_sub_misses_renewal', 'failed_tx_changes_nothing', 'changes_need_owner_or_purchase',
-                           'changes_need_root_owner_partial', 'changes_need_root_owner_reachable_partial', 'stale_sub_changed_by_previous_owner',
+        required_theorems=['executed_tx_is_validated', 'changes_need_valid_signature', 'at_most_one_owner', 'create_needs_absent_name', 'subs_follow_parent', 'sub_expires_with_parent',
+                           'pending_sub_deleted_by_purchase', 
+                           'pending_sub_follows_renewal', 'failed_tx_changes_nothing', 'changes_need_owner_or_purchase',
+                           'changes_need_root_owner', 'changes_need_root_owner_reachable', 'commits_are_invisible',
                            'send_pays_beneficiary_keeps_registry', 'purchase_needs_sale_or_expiry', 'purchase_pays_owner_at_least_price',
                            'expired_purchase_pays_base', 'sale_state_changes_need_owner_or_purchase', 'ownership_change_clears_sale', 'created_record_is_off_sale', 'expiry_exact_create', 'sub_created_with_parent_expiry',
                            'expiry_exact_renew', 'expiry_exact_purchase_on_sale', 'expiry_exact_purchase_expired',
                            'overlong_payment_is_refused'],
         run=run_c20, replay=replay_olh('ons'), level='proof',
         assumptions=[
-            'the ONS model (OLP/Ons/Model.lean) is a hand-written port of the seven run* handlers; it is tied to the code by the `ons` engine: every DeliverTx of every generated history is re-run by the Lean model as a stateless step (decoded registry, committed-key set, balances, fee pool, options, heights, operation -> result class + full post-state) and must agree exactly',
+            'the ONS model (OLP/Ons/Model.lean) is a hand-written port of the seven run* handlers; it is tied to the code by the `ons` engine: every DeliverTx of every generated history is re-run by the Lean model as a stateless step (decoded registry, balances, fee pool, options, heights, operation -> result class + full post-state) and must agree exactly',
             'DeliverTx runs Validate before the handler: the model step is Validate (signer field = address of the signing key, signature verifies, fee price >= minimum, name well-formed, payment in the chain currency, amount validity) then run*, then the fee step; signature verification itself is a boolean input (crypto is a parameter, as in C04) and the engine delivers forged-owner, wrongly signed, under-priced, non-OLT and ill-named transactions and requires their refusal on both sides (the same rules are additionally probed through CheckTx)',
             'gas metering is layer K: the used gas (or the class of a fee-step failure) observed on the implementation is an input of the model step; URI syntax (net/url.Parse + scheme list) is a boolean input computed by the harness with net/url',
             'expiry exactness is unconditional since f3370a9: blocksFor refuses a block count that does not fit an int64 together with the height it extends, so every executed create / renew / purchase writes exactly anchor + payment-part / perBlockFees (the monitor signature expiry-int64-overflow stays active)',
-            'sub-names follow their parent (owner, expiry) only along histories in which every purchase / renew sees all sub-names of its target in the committed tree (histSees): the code does not iterate keys written in the current block (KF-C20-1, KF-C20-2); one-transaction-per-block histories satisfy it unconditionally',
+            'sub-names follow their parent (owner, expiry) along every history since 487c936 (IterateSubDomain -> State.IterateRangeAll visits keys written earlier in the same block; every sub-name loop of action/ons goes through it and nothing else in the handlers iterates); the only hypothesis left is the chain start: RegInv of the genesis registry (empty registry, or genesis sub-names consistent with their parents: setupState does not check this, trusted input)',
         ],
         model_limits='balances are modelled for OLT and VT (send may pay in any registered currency); nil and empty addresses are not distinguished (a JSON null owner cannot be produced by the message types\' own Marshal); names are ASCII; the division-by-zero crash for perBlockFees = 0 (not admitted by governance validation, only by a genesis file) is in the model as Err.crash but not executed on the implementation (C18 territory); write order inside one transaction (IAVL shape) is below this abstraction (C01/C09)'),
     'C12': dict(
